@@ -281,6 +281,7 @@ func TypesWith(c explore.Chooser, opt TypesOpt) *prog.Program {
 		rename["Red"] = v
 	}
 
+	extraEnums := s.Pick("enum.extra-pair", "none", "negative-then-iota")
 	enumForm := s.Pick("enum.form", "iota-uint8", "explicit-int-unexported-middle", "string", "alias-member", "unexported-first", "other-file", "negative", "bool-backed", "float-backed", "dup-values", "flagged-default-first", "flagged-default-middle")
 	unionForm := s.Pick("union.members", "2-structs", "1-struct", "named-int-member", "named-slice-member", "named-map-member", "pointer-receiver-non-member", "extra-marker-method", "enum-member", "member-in-other-file", "member-by-embedding", "generic-phantom-member")
 	second := s.Pick("union.second", "none", "shares-member-different-prefix", "shares-member-same-prefix", "same-name-in-sub", "disjoint")
@@ -529,6 +530,12 @@ func TypesWith(c explore.Chooser, opt TypesOpt) *prog.Program {
 		embField = "\tCount\n"
 	}
 
+	if extraEnums == "negative-then-iota" {
+		// an enum with a large member sorted before a negative one, next to an iota-like enum whose
+		// names are not in value order (what one enum leaves behind must not reach the next one)
+		add("type Trend int\n\nconst (\n\tBoom  Trend = 10\n\tCrash Trend = -10\n)")
+		add("type Grade uint8\n\nconst (\n\tGLow Grade = iota\n\tGMid\n\tGHigh\n)")
+	}
 	if reexport == "yes" {
 		// the importing package declares a typed constant of an enum of the sub package
 		add("const DefaultKind = subpkg.Fancy")
